@@ -111,8 +111,25 @@ def _subset(repo):
     branch = {'p': top[0].body, 'n': top[0].orelse}
     out = {}
     for key, body in branch.items():
+        want_default = 'surname' if key == 'p' else 'name'
         lams = [n for st in body for n in ast.walk(st)
                 if isinstance(n, ast.Call) and ast.unparse(n.func) == 'filter']
+        comps = [n for st in body for n in ast.walk(st) if isinstance(n, ast.DictComp)]
+        if len(comps) == 1 and not lams:
+            # {k: v for k, v in from_table.items() if <cond>}: the same selection
+            dc = comps[0]
+            g = dc.generators[0]
+            if (len(dc.generators) != 1 or g.is_async or ast.unparse(g.iter) != 'from_table.items()'
+                    or not isinstance(g.target, ast.Tuple) or len(g.target.elts) != 2
+                    or not all(isinstance(e, ast.Name) for e in g.target.elts)
+                    or ast.unparse(dc.key) != g.target.elts[0].id or ast.unparse(dc.value) != g.target.elts[1].id):
+                raise Untranslatable(f'util.subset: dict comprehension outside the subset in the {key} branch')
+            if not g.ifs:
+                raise Untranslatable(f'util.subset: unconditional comprehension in the {key} branch')
+            env = {g.target.elts[0].id: 't', want_default: 'sn'}
+            conds = [_bexpr(c, env) for c in g.ifs]
+            out[key] = conds[0] if len(conds) == 1 else '(' + ' && '.join(conds) + ')'
+            continue
         if len(lams) != 1 or not isinstance(lams[0].args[0], ast.Lambda):
             raise Untranslatable(f'util.subset: expected one filter(lambda ...) in the {key} branch')
         call = lams[0]
@@ -121,7 +138,6 @@ def _subset(repo):
             raise Untranslatable('util.subset: filter does not range over from_table.items()')
         names = [a.arg for a in lam.args.args]
         defaults = [ast.unparse(d) for d in lam.args.defaults]
-        want_default = 'surname' if key == 'p' else 'name'
         if names != ['t', 'sn'] or defaults != [want_default]:
             raise Untranslatable(f'util.subset: lambda signature {names} {defaults}')
         out[key] = _bexpr(lam.body, {'t[0]': 't', 'sn': 'sn'})
